@@ -1037,10 +1037,219 @@ func TestTCPC10(t *testing.T) {
 	r := hx.Start(t, "C10")
 	defer r.Finish(t)
 	hx.Rapid(r, t, "tcp_churn", r.N(40, 500), genChurn, cur(r, "tcp_churn", churnProp))
+	hx.Rapid(r, t, "tcp_stalled_reader", r.N(1, 4), genStall, cur(r, "tcp_stalled_reader", stallProp))
 }
 
 func TestTCPC05(t *testing.T) {
 	r := hx.Start(t, "C05")
 	defer r.Finish(t)
 	hx.Rapid(r, t, "tcp_churn", r.N(40, 500), genChurn, cur(r, "tcp_churn", churnProp))
+}
+
+// ---------------------------------------------------------------- C10: the stop while the remote is not reading
+
+// The remote completes the handshake and then stops reading (a receive buffer
+// of a few KB, so the window closes quickly); local WriteUpdate callers fill
+// corebgp's send buffer until they block; then Close / DeletePeer is issued.
+// "Return within bounded time whatever state each affected peer's connections
+// are in ... while WriteUpdate callers are active" - the stop must return
+// although nothing can be written. (Known finding on the pinned tree: it does
+// not; see known_findings.json and DESIGN.md section 5.) Whatever happens, once
+// the remote gives up and closes, the stop must return and the callback
+// history must be complete.
+type stallScn struct {
+	Hold     int  `json:"hold"`      // local hold time (remote proposes 90)
+	Writers  int  `json:"writers"`   // goroutines calling WriteUpdate
+	BodyLen  int  `json:"body_len"`  // their body length
+	WaitMs   int  `json:"wait_ms"`   // time between "all writers blocked" and the stop (a keepalive interval may pass)
+	Delete   bool `json:"delete"`    // DeletePeer instead of Close
+	RemoteKA bool `json:"remote_ka"` // the remote keeps sending KEEPALIVEs while not reading
+}
+
+type stallCase struct {
+	Scns []stallScn `json:"scenarios"`
+}
+
+const stallStopBound = 15 * time.Second
+
+func runStallScn(i int, sc stallScn) (dev *hx.Dev, class string) {
+	s, err := newServer("10.255.0.1", []string{addr("h1") + ":0"})
+	if err != nil {
+		return nil, "skipped-listen-failed"
+	}
+	remote := fmt.Sprintf("h%d", 40+i)
+	peer := netip.MustParseAddr(addr(remote))
+	if err := s.srv.AddPeer(corebgp.PeerConfig{RemoteAddress: peer, LocalAS: 64512, RemoteAS: 64513}, s.plug,
+		corebgp.WithPassive(), corebgp.WithHoldTime(uint16(sc.Hold))); err != nil {
+		return hx.Devf("setup", "%v", err), ""
+	}
+	s.serve()
+	la, _ := net.ResolveTCPAddr("tcp", net.JoinHostPort(addr(remote), "0"))
+	d := net.Dialer{LocalAddr: la, Timeout: 2 * time.Second, Control: func(n, a string, c syscall.RawConn) error {
+		return c.Control(func(fd uintptr) { syscall.SetsockoptInt(int(fd), syscall.SOL_SOCKET, syscall.SO_RCVBUF, 4096) })
+	}}
+	conn, err := d.Dial("tcp", net.JoinHostPort(addr("h1"), portOf(s.lis[0])))
+	if err != nil {
+		s.closeBounded(20 * time.Second)
+		return nil, "dial-failed"
+	}
+	remoteClosed := false
+	defer func() {
+		if !remoteClosed {
+			conn.Close()
+		}
+	}()
+	if err := handshake(conn, 64513, 90, 0x0a000002); err != nil {
+		s.closeBounded(20 * time.Second)
+		return nil, "inconclusive-handshake"
+	}
+	if !waitFor(5*time.Second, func() bool { _, ok := s.plug.writers.Load(peer.String()); return ok }) {
+		s.closeBounded(20 * time.Second)
+		return nil, "inconclusive-timeout"
+	}
+	wv, _ := s.plug.writers.Load(peer.String())
+	w := wv.(corebgp.UpdateMessageWriter)
+	stopKA := make(chan struct{})
+	defer close(stopKA)
+	if sc.RemoteKA {
+		go func() {
+			tk := time.NewTicker(time.Second)
+			defer tk.Stop()
+			for {
+				select {
+				case <-stopKA:
+					return
+				case <-tk.C:
+					conn.SetWriteDeadline(time.Now().Add(time.Second))
+					conn.Write(wire.Keepalive())
+				}
+			}
+		}()
+	}
+	// the remote does not read from here on
+	var written atomic.Int64
+	var wwg sync.WaitGroup
+	for g := 0; g < sc.Writers; g++ {
+		wwg.Add(1)
+		go func() {
+			defer wwg.Done()
+			b := make([]byte, sc.BodyLen)
+			for {
+				if err := w.WriteUpdate(b); err != nil {
+					return
+				}
+				written.Add(1)
+			}
+		}()
+	}
+	last, still := int64(-1), 0
+	stalled := waitFor(20*time.Second, func() bool {
+		time.Sleep(100 * time.Millisecond)
+		if k := written.Load(); k == last {
+			still++
+		} else {
+			last, still = k, 0
+		}
+		return still >= 4
+	})
+	if !stalled {
+		conn.Close()
+		remoteClosed = true
+		s.closeBounded(20 * time.Second)
+		return nil, "inconclusive-not-stalled"
+	}
+	time.Sleep(time.Duration(sc.WaitMs) * time.Millisecond)
+	stopDone := make(chan struct{})
+	go func() {
+		if sc.Delete {
+			s.srv.DeletePeer(peer)
+		} else {
+			s.srv.Close()
+		}
+		close(stopDone)
+	}()
+	blocked := false
+	select {
+	case <-stopDone:
+	case <-time.After(stallStopBound):
+		blocked = true
+	}
+	// the remote gives up: with unread data in its buffer this resets the connection
+	conn.Close()
+	remoteClosed = true
+	select {
+	case <-stopDone:
+	case <-time.After(20 * time.Second):
+		return hx.Devf("stop-blocked-after-remote-reset", "scenario %+v: the stop had not returned 20 s after the remote closed its end", sc), "blocked"
+	}
+	if sc.Delete {
+		if !s.closeBounded(20 * time.Second) {
+			return hx.Devf("close-blocked", "scenario %+v: Close did not return within 20 s after DeletePeer had returned", sc), "blocked"
+		}
+	} else {
+		select {
+		case <-s.done:
+		case <-time.After(20 * time.Second):
+			return hx.Devf("serve-not-returned", "scenario %+v: Serve did not return after Close", sc), "blocked"
+		}
+	}
+	wdone := make(chan struct{})
+	go func() { wwg.Wait(); close(wdone) }()
+	select {
+	case <-wdone:
+	case <-time.After(10 * time.Second):
+		return hx.Devf("writer-blocked", "scenario %+v: WriteUpdate callers are still blocked 10 s after the stop returned", sc), "blocked"
+	}
+	evs := s.rec.snapshot()
+	if g := grammar(evs); g != "" {
+		return hx.Devf("callback-grammar", "scenario %+v: %s", sc, g), ""
+	}
+	if e, cl := s.rec.count("est+", ""), s.rec.count("close", ""); e != cl {
+		return hx.Devf("onclose-missing", "scenario %+v: after the stop returned: %d OnEstablished, %d OnClose", sc, e, cl), ""
+	}
+	if blocked {
+		return hx.Devf("stop-blocked-by-stalled-reader", "scenario %+v: %d UPDATEs written, then all %d WriteUpdate callers blocked (the remote is not reading); %s did not return within %v, it returned only after the remote closed its end",
+			sc, last, sc.Writers, map[bool]string{true: "DeletePeer", false: "Close"}[sc.Delete], stallStopBound), "blocked"
+	}
+	return nil, "returned"
+}
+
+func stallProp(c stallCase) hx.Verdict {
+	v := hx.Verdict{}
+	devs := make([]*hx.Dev, len(c.Scns))
+	classes := make([]string, len(c.Scns))
+	var wg sync.WaitGroup
+	for i, sc := range c.Scns {
+		wg.Add(1)
+		go func() {
+			defer wg.Done()
+			devs[i], classes[i] = runStallScn(i, sc)
+		}()
+	}
+	wg.Wait()
+	judged := 0
+	for i := range c.Scns {
+		if classes[i] == "blocked" || classes[i] == "returned" {
+			judged++
+		}
+		// an unlisted deviation takes precedence over the known one
+		if devs[i] != nil && (v.Dev == nil || v.Dev.Key == "stop-blocked-by-stalled-reader") {
+			v.Dev = devs[i]
+		}
+	}
+	v.Class = fmt.Sprintf("scenarios=%d/judged=%d", len(c.Scns), judged)
+	if judged >= 1 {
+		v.NT = fmt.Sprintf("%+v", c)
+	}
+	return v
+}
+
+func genStall(rt *rapid.T) stallCase {
+	var c stallCase
+	for i, n := 0, rapid.IntRange(3, 5).Draw(rt, "n"); i < n; i++ {
+		c.Scns = append(c.Scns, stallScn{Hold: []int{3, 0, 90}[rapid.IntRange(0, 2).Draw(rt, "hold")], Writers: rapid.IntRange(1, 3).Draw(rt, "writers"),
+			BodyLen: []int{4000, 1000, 4077}[rapid.IntRange(0, 2).Draw(rt, "len")], WaitMs: []int{0, 1500}[rapid.IntRange(0, 1).Draw(rt, "wait")],
+			Delete: rapid.Bool().Draw(rt, "delete"), RemoteKA: rapid.Bool().Draw(rt, "rka")})
+	}
+	return c
 }
